@@ -300,7 +300,7 @@ def run_js(res, spec):
                     if enc == 'binary' and not encodable(t, dlm, 'latin-1'):
                         continue
                     ls = rng.choice(LINE_SEPS)
-                    cases.append({'table': t, 'delim': dlm, 'policy': policy, 'line_separator': ls, 'encoding': enc})
+                    cases.append({'table': t, 'delim': dlm, 'policy': policy, 'line_separator': ls, 'encoding': enc, 'also_stream': True})
         for off in range(0, len(cases), 400):
             chunk = cases[off:off + 400]
             outs = node.call({'op': 'roundtrip_batch', 'cases': chunk})['results']
@@ -323,6 +323,11 @@ def run_js(res, spec):
                 if o['werror'] is not None or o['rerror'] is not None or o['records'] != exp:
                     res.violation('js-roundtrip-differs', 'JS: table %r (%s %r %s sep %r) -> bytes %s -> %r (errors %r %r)' % (t, policy, dlm, enc, c['line_separator'], o.get('bytes_hex', '')[:120], o['records'], o['werror'], o['rerror']), case)
                 else:
+                    for si, st in enumerate(o.get('stream') or []):
+                        res.count('js_stream_roundtrips')
+                        if st['error'] is not None or st['stuck'] or st['records'] != exp:
+                            res.violation('js-stream-roundtrip-differs', 'JS: table %r (%s %r %s sep %r) written as %s read back by the STREAM reader (%s) as %r (error %r)' % (t, policy, dlm, enc, c['line_separator'], o.get('bytes_hex', '')[:80], 'one chunk' if si == 0 else 'two chunks', st['records'], st['error']), case)
+                            break
                     ragged = len(set(len(r) for r in t)) > 1
                     wk = [k for k in util.warning_kinds(o['wwarnings']) + util.warning_kinds(o['rwarnings']) if not (ragged and k == 'fields')]
                     if wk:
@@ -364,7 +369,7 @@ def summarize(tier, seed, m):
     return {
         'rule': 'exhaustive small tables (1x1 with fields up to length %d, 1x2 / 2x1 up to length 2, 2x2 and ragged up to length 1) over {quote, space, tab, CR, LF, a, e-acute, delimiter characters} for each of %d dialects (policies simple/quoted/quoted_rfc x delimiters %r, whitespace, monocolumn) x line separators x encodings {None, utf-8, latin-1}; random larger tables incl. None cells; a table holding all 256 latin-1 code points; file-to-file leg through query_csv; JS writer/reader leg. Representability decided by the reference writer/reader pair. distinct_nontrivial = distinct representable (table, dialect) cases containing at least one special character.' % (3 if tier == 'quick' else 4, len(dialects()), DELIMS),
         'exhaustive': True,
-        'required': ['representable_roundtrips', 'delimiter_clause_checks', 'none_clause_checks', 'file_to_file_runs', 'latin1_all_byte_tables'],
+        'required': ['js_stream_roundtrips', 'representable_roundtrips', 'delimiter_clause_checks', 'none_clause_checks', 'file_to_file_runs', 'latin1_all_byte_tables'],
         'assumptions': ['rv.model.refcsv write_table/read_text decide representability exactly as the quantifier prescribes'],
     }
 
